@@ -479,6 +479,7 @@ def main(ctx):
     guarded(ctx, 'general encoder recipients', 'M', lambda: c11.run(ctx, prog, only=r'^general-encoder/'))
     import c01
     guarded(ctx, 'item accessors (nonce, kid, alg)', 'M', lambda: c01.run(ctx, prog, only=r'^JwsValidationItem::'))
+    guarded(ctx, 'base64url codec binding', 'M', lambda: c01.codec_binding(ctx, prog))
 
     def verification_side():
         prog2, info2 = load(c03.CRATES, src_only=c03.SRC)
